@@ -47,10 +47,23 @@ func runC15m(tb stat.TB, c c15mCase) {
 	for i := range contents {
 		contents[i] = c29rContent(i+3, c.Sizes[i])
 		v.SeedFile(fmt.Sprintf("/m%d", i), 0644, 0, 0, contents[i])
+		// a directory of its own per client, with entries no other client's directory has
+		v.SeedDir(fmt.Sprintf("/dir%d", i), 0755, 0, 0)
+		for k := 0; k <= i+1; k++ {
+			v.SeedFile(fmt.Sprintf("/dir%d/own%d_%d", i, i, k), 0644, 0, 0, []byte("o"))
+		}
 	}
 	s := newSession(tb, v, absnfs.ExportOptions{AttrCacheTimeout: 1, AttrCacheSize: 4, MaxWorkers: c.Workers, TransferSize: 1 << 20})
 	defer s.close()
 	root := s.e.MustMount(tb)
+	dfhs := make([][]byte, c.Clients)
+	for i := range dfhs {
+		r, err := s.e.NFS3(drv.Root(), nfsx.ProcLookup, nfsx.ArgsDirop(root, fmt.Sprintf("dir%d", i)))
+		if err != nil || r.Status != nfsx.OK {
+			tb.Fatalf("harness: lookup dir%d: %v", i, err)
+		}
+		dfhs[i] = r.Fh
+	}
 	fhs := make([][]byte, c.Clients)
 	for i := range fhs {
 		r, err := s.e.NFS3(drv.Root(), nfsx.ProcLookup, nfsx.ArgsDirop(root, fmt.Sprintf("m%d", i)))
@@ -92,7 +105,11 @@ func runC15m(tb stat.TB, c c15mCase) {
 				case 2:
 					proc, args = nfsx.ProcGetattr, nfsx.ArgsFh(fhs[ci])
 				default:
-					proc, args = nfsx.ProcReaddirplus, nfsx.ArgsReaddirplus(root, 0, [8]byte{}, 4096, 8192)
+					if k%2 == 0 {
+						proc, args = nfsx.ProcReaddirplus, nfsx.ArgsReaddirplus(dfhs[ci], 0, [8]byte{}, 4096, 8192)
+					} else {
+						proc, args = nfsx.ProcReaddir, nfsx.ArgsReaddir(dfhs[ci], 0, [8]byte{}, 4096)
+					}
 				}
 				calls = append(calls, sent{xid, proc})
 				stream = append(stream, nfsx.Frame(nfsx.Call(xid, nfsx.ProgNFS, 3, proc, drv.Root().Cred, nfsx.AuthNone(), args))...)
@@ -127,18 +144,18 @@ func runC15m(tb stat.TB, c c15mCase) {
 					report("reply-malformed-under-concurrency", "client %d: reply %d (proc %d) does not decode as its result type: %v", ci, k, call.proc, derr)
 					return
 				}
-				if call.proc == nfsx.ProcReaddirplus && res.Status == nfsx.OK {
-					// the root never changes: every listing is m0..m<clients-1>, each with the fileid GETATTR reports
+				if (call.proc == nfsx.ProcReaddirplus || call.proc == nfsx.ProcReaddir) && res.Status == nfsx.OK {
+					// the client's own directory never changes: own<ci>_0 .. own<ci>_<ci+1>, complete in one page
 					names := map[string]bool{}
 					for _, e := range res.Entries {
 						names[e.Name] = true
 					}
-					okNames := len(names) == c.Clients && len(res.Entries) == c.Clients
-					for i := 0; i < c.Clients && okNames; i++ {
-						okNames = names[fmt.Sprintf("m%d", i)]
+					okNames := len(names) == ci+2 && len(res.Entries) == ci+2 && res.EOF
+					for i := 0; i <= ci+1 && okNames; i++ {
+						okNames = names[fmt.Sprintf("own%d_%d", ci, i)]
 					}
 					if !okNames {
-						report("reply-carries-another-connections-data", "client %d: READDIRPLUS reply %d lists %d entries %v, the (never changing) root holds m0..m%d", ci, k, len(res.Entries), names, c.Clients-1)
+						report("reply-carries-another-connections-data", "client %d: listing reply %d (proc %d) has %d entries %v eof=%v, this client's directory holds own%d_0..own%d_%d", ci, k, call.proc, len(res.Entries), names, res.EOF, ci, ci, ci+1)
 						return
 					}
 				}
